@@ -17,8 +17,22 @@ TB_E2 = ("trusted: rustc, shuttle 0.9.3 runtime (sequentially consistent, switch
 
 # id -> (engines, technique, level text, design ref)
 CHECKS = {
+ "C01": ([E1], "bounded-exhaustive enumeration of pipelines x event histories on the real operators with a notification-grammar monitor on every probe",
+         "Every generated pipeline (whole catalogue, local and _threads forms, chains, two-input shapes, diamonds, flattening, multicast) is driven through every action history up to the length bound, with events continuing after terminals, and the grammar next*(error|complete)? is checked on every probe after every action.", "5/C01"),
  "C03": ([E1], "bounded-exhaustive enumeration of operator chains x event histories on the real operators, compared step by step with a list-based reference interpreter",
          "Every chain of catalogue operators up to the depth bound is run on every event history up to the length bound (hot subject, hot create(), cold create()/from_iter() delivery, every basic source) and the probe trace must equal the reference interpreter after every single event; nothing is sampled.", "5/C03"),
+ "C04": ([E1], "bounded-exhaustive enumeration of merged input timelines on the real two-input operators, compared step by step with per-operator reference functions",
+         "For every two-input combinator in both forms every merged timeline of the two inputs up to the length bound (terminals of either input at every position, cold synchronous inputs on either side) is executed and compared with the reference function after every event.", "5/C04"),
+ "C05": ([E1], "bounded-exhaustive enumeration of outer/inner event interleavings on the real flattening operators against a FIFO reference model, with a live-subscription counter and hang/panic detection",
+         "Every interleaving up to the length bound of outer items/terminals and inner items/terminals over cold and hot inner observables is run through merge_all(n)/concat_all/flatten/flat_map/concat_map (both forms); exact output, concurrency limit, and return of every call are checked at every step.", "5/C05"),
+ "C06": ([E1], "bounded-exhaustive enumeration of operation sequences on the five real subject types against a list model",
+         "Every sequence up to the length bound of subscribe/unsubscribe/next/error/complete/retain/unsubscribe-subject/subscribe-from-a-callback is executed on each subject type; all probe traces and API answers are compared with the model after every operation. (The concurrent half is served by engine E2 once built.)", "5/C06"),
+ "C11": ([E1], "bounded-exhaustive enumeration of join/leave/emit/connect histories on the real share/publish operators with upstream counters",
+         "Every history up to the length bound of subscribe/unsubscribe/source events/connect is executed for share, share_threads and publish; source-subscription and upstream-tap counters and every subscriber trace are checked after every step.", "5/C11"),
+ "C12": ([E1], "bounded-exhaustive enumeration of operation sequences on the real BehaviorSubject (both subject kinds) against a one-cell model",
+         "Every sequence up to the length bound of next/next_by/clone/subscribe/unsubscribe/complete/error is executed; every probe trace and peek() of every handle are compared with the model after every operation. (The two-producer race is served by engine E2 once built.)", "5/C12"),
+ "C20": ([E1], "bounded-exhaustive enumeration of input scripts x key functions on the real group_by with a probe attached to every group at announcement",
+         "Every script up to the length bound over a 4-value alphabet with every terminal and three key functions is executed on both subject kinds; announcements, per-group traces and the flattened output are compared with the model after every event.", "5/C20"),
 }
 
 # properties not (yet) claimed -> reason
